@@ -3,6 +3,7 @@
 use crate::engine::*;
 use crate::gen::{common, soup};
 use crate::model::nonblank::*;
+use crate::model::refscan;
 
 pub struct C01Prop;
 pub static C01: C01Prop = C01Prop;
@@ -31,32 +32,31 @@ pub fn is_keyword(word: &str) -> bool {
     }
 }
 
-fn is_word_byte(b: u8) -> bool {
-    b.is_ascii_alphanumeric() || b == b'_'
-}
-
-/// Is the ASCII letter at byte offset `i` of `s` inside a maximal [A-Za-z0-9_] run that is a keyword?
-fn in_keyword_word(s: &str, i: usize) -> bool {
-    let b = s.as_bytes();
-    let mut a = i;
-    while a > 0 && is_word_byte(b[a - 1]) {
-        a -= 1;
+/// Which case change (if any) is permitted for the ASCII letter at byte offset `i` of the input:
+/// Some(true) = may become lower case (inside a word token that equals one of the 122 keywords),
+/// Some(false) = may become upper case (inside the name of a `{$`/`(*$` directive).
+/// Tokens come from the reference scanner, not from the code under test.
+fn permitted_change(input: &str, toks: &[refscan::Tok], i: usize) -> Option<bool> {
+    let k = toks.partition_point(|t| t.end <= i);
+    let t = toks.get(k)?;
+    if i < t.start {
+        return None;
     }
-    let mut e = i;
-    while e < b.len() && is_word_byte(b[e]) {
-        e += 1;
+    match t.kind {
+        refscan::Kind::Ident | refscan::Kind::Keyword => {
+            is_keyword(t.text(input)).then_some(true)
+        }
+        refscan::Kind::DirectiveCond | refscan::Kind::DirectiveCompiler => {
+            let b = input.as_bytes();
+            let name_start = t.start + if b[t.start] == b'{' { 2 } else { 3 };
+            let mut name_end = name_start;
+            while name_end < t.end && (b[name_end].is_ascii_alphanumeric() || b[name_end] == b'_') {
+                name_end += 1;
+            }
+            (i >= name_start && i < name_end).then_some(false)
+        }
+        _ => None,
     }
-    is_keyword(&s[a..e])
-}
-
-/// Is offset `i` inside the name span right after `{$` or `(*$`?
-fn in_directive_name(s: &str, i: usize) -> bool {
-    let b = s.as_bytes();
-    let mut a = i;
-    while a > 0 && is_word_byte(b[a - 1]) {
-        a -= 1;
-    }
-    (a >= 2 && &b[a - 2..a] == b"{$") || (a >= 3 && &b[a - 3..a] == b"(*$")
 }
 
 /// The C01 oracle proper; shared with other properties that rely on the position map.
@@ -65,6 +65,7 @@ pub fn check_nonblank(input: &str, out: &str) -> Result<bool, Failure> {
     let b = nonblank(out);
     let n = a.len().min(b.len());
     let mut case_changed = false;
+    let mut toks: Option<Vec<refscan::Tok>> = None;
     for k in 0..n {
         let (ia, ca) = a[k];
         let (_ib, cb) = b[k];
@@ -74,10 +75,8 @@ pub fn check_nonblank(input: &str, out: &str) -> Result<bool, Failure> {
         if ca.is_ascii_alphabetic() && cb.is_ascii_alphabetic() && ca.eq_ignore_ascii_case(&cb) {
             case_changed = true;
             let lowered = cb.is_ascii_lowercase();
-            if lowered && in_keyword_word(input, ia) {
-                continue;
-            }
-            if !lowered && in_directive_name(input, ia) {
+            let toks = toks.get_or_insert_with(|| refscan::scan(input));
+            if permitted_change(input, toks, ia) == Some(lowered) {
                 continue;
             }
             return Err(Failure::new(
@@ -135,11 +134,11 @@ impl Prop for C01Prop {
         "C01"
     }
     fn rule(&self) -> String {
-        "Streams: sigma3 = every sequence of 3 lexemes over the 109-lexeme alphabet; sigma2sep = every pair x {\"\", \" \", newline} separators x 4 configurations; random (proptest tapes): token soup, arbitrary UTF-8 text, lossy-decoded bytes, mutated/spliced repository seeds, directive-heavy and nested inputs, each x generated configuration. Oracle: the sequences of non-blank characters (blank = <= U+0020 or U+3000) of input and output have equal length and agree position-wise up to ASCII case; where the case differs, the input letter lies in a maximal [A-Za-z0-9_] run that is one of the 122 keywords and became lower case, or in the name right after `{$` / `(*$` and became upper case. Non-trivial = at least 2 tokens and output != input; distinct by hash of (input, configuration)."
+        "Streams: sigma3 = every sequence of 3 lexemes over the 109-lexeme alphabet; sigma2sep = every pair x {\"\", \" \", newline} separators x 4 configurations; random (proptest tapes): token soup, arbitrary UTF-8 text, lossy-decoded bytes, mutated/spliced repository seeds, directive-heavy and nested inputs, each x generated configuration. Oracle: the sequences of non-blank characters (blank = <= U+0020 or U+3000) of input and output have equal length and agree position-wise up to ASCII case; where the case differs, the input letter lies (per the independent reference scanner) in a word token equal to one of the 122 keywords and became lower case, or in the name of a `{$` / `(*$` directive token and became upper case. Non-trivial = at least 2 tokens and output != input; distinct by hash of (input, configuration)."
             .into()
     }
     fn assumptions(&self) -> Vec<String> {
-        vec!["'a word that can be a Delphi keyword' is read as: a maximal ASCII word run equal to one of the lexer's 122 keywords ignoring case".into()]
+        vec!["'a word that can be a Delphi keyword' is read as: a word token (by the reference scanner's Delphi lexical rules) equal to one of the 122 keywords ignoring case, in any context".into()]
     }
     fn streams(&self, tier: Tier) -> Vec<Stream> {
         let q = tier == Tier::Quick;
@@ -148,7 +147,7 @@ impl Prop for C01Prop {
             Stream::exhaustive("sigma2sep", soup::space_size(2) * 12),
             Stream::random("any", if q { 6000 } else { 80000 }, 400),
             Stream::random("any_chk", if q { 1000 } else { 10000 }, 400).chk(),
-            Stream::random("big", if q { 60 } else { 1500 }, 6000),
+            Stream::random("big", if q { 40 } else { 1500 }, 3000),
         ];
         if !q {
             v.push(Stream::exhaustive("sigma4", soup::space_size(4)));
@@ -160,7 +159,7 @@ impl Prop for C01Prop {
         let cfg = Cfg::gen(t);
         let (input, g) = match stream {
             "any" => common::gen_any_input(t, 80),
-            "big" => common::gen_any_input(t, 2500),
+            "big" => common::gen_any_input(t, 1200),
             _ => return None,
         };
         Some(Case::text(g, input, cfg))
